@@ -62,9 +62,10 @@ def arch_strategy(draw, L, allow_maxpool=True, allow_overlap_pool=True, n_target
                     stride = draw(st.integers(1, k - 1)) if k > 1 else None
                 pad = draw(st.sampled_from([0, 0, k // 2])) if k >= 2 else 0
                 ceil = draw(st.booleans())
-                o = _out_len(torch.nn.MaxPool1d(k, stride=stride, padding=pad, ceil_mode=ceil), C, cur)
+                dil = draw(st.sampled_from([1, 1, 1, 2]))
+                o = _out_len(torch.nn.MaxPool1d(k, stride=stride, padding=pad, ceil_mode=ceil, dilation=dil), C, cur)
                 if o is not None and o >= 1:
-                    layers.append({"t": "maxpool", "k": k, "stride": stride, "pad": pad, "ceil": ceil})
+                    layers.append({"t": "maxpool", "k": k, "stride": stride, "pad": pad, "ceil": ceil, "dil": dil})
                     cur = o
     layers.append({"t": "flatten"})
     feat = C * cur
@@ -102,7 +103,7 @@ def build(arch, seed, scale=2.0):
         elif t == "avgpool":
             m = torch.nn.AvgPool1d(ly["k"])
         elif t == "maxpool":
-            m = torch.nn.MaxPool1d(ly["k"], stride=ly["stride"], padding=ly["pad"], ceil_mode=ly["ceil"])
+            m = torch.nn.MaxPool1d(ly["k"], stride=ly["stride"], padding=ly["pad"], ceil_mode=ly["ceil"], dilation=ly.get("dil", 1))
         elif t == "flatten":
             m = torch.nn.Flatten()
         else:
